@@ -106,8 +106,12 @@ def check_transcript(ctx, tx, cfg, m, what, r, meta, lost=None):
 def gen_scenario(ctx, k):
     rng = ctx.sub_rng('c20', k)
     cfg = cfggen.gen_config(rng, nboards=rng.randrange(1, 6), with_initial=True)
+    if k % 2:
+        for b in cfg['boards']:
+            if rng.random() < 0.5:
+                b['uid'] = bytes([b['uid'][0] | 0x80]) + b['uid'][1:]      # cascaded hubs: boards on the third address level
     d = cfggen.write_config(cfg, cfg_dir(f'c20_{k}'))
-    nodes = cfggen.assign_tree(rng, cfg, absent_prob=0.3, unknown=rng.randrange(0, 2))
+    nodes = cfggen.assign_tree(rng, cfg, absent_prob=0.3, unknown=rng.randrange(0, 2), unknown_hubs=rng.choice([0, 0, 1, 2]))
     sc = Scn(seed=ctx.seed * 73 + k, watchdog=300000)
     sc.add(*cfggen.bus_lines(cfg, nodes), 'bus brackets 0')
     if rng.random() < 0.4:
